@@ -74,6 +74,8 @@ instance (g : Ghost) (op : Op) : Decidable (OpOk g op) := by
   | markAbort m => unfold OpOk; infer_instance
   | nulldel a => unfold OpOk; infer_instance
   | delNull => unfold OpOk; infer_instance
+  | typed b t => unfold OpOk; infer_instance
+  | raises a => unfold OpOk; infer_instance
 
 def WF.dec : ∀ (g : Ghost) (s : St) (ops : List Op), Decidable (WF g s ops)
   | _, _, [] => isTrue trivial
@@ -397,6 +399,10 @@ theorem inv_step {g : Ghost} {s : St} (hI : Inv g s) (op : Op) (hok : OpOk g op)
   | markAbort marks =>
     refine ⟨hI.congr rfl rfl rfl rfl, ⟨[], by simp [step]⟩, fun _ h => h⟩
   | nulldel a =>
+    refine ⟨hI.congr rfl rfl rfl rfl, ⟨[], by simp [step]⟩, fun _ h => h⟩
+  | typed b t =>
+    refine ⟨hI.congr rfl rfl rfl rfl, ⟨[], by simp [step]⟩, fun _ h => h⟩
+  | raises a =>
     refine ⟨hI.congr rfl rfl rfl rfl, ⟨[], by simp [step]⟩, fun _ h => h⟩
   | delNull =>
     obtain ⟨h1, h2, h3, _, h5, h6, _⟩ := gcRemNull_fields Cfg.current s
